@@ -416,11 +416,11 @@ func outCampaign(r *ev.Run, prop string) {
 				idx[i] = i
 			}
 			var rej []int
-			if analysed >= 4 {
-				fmt.Printf("note: further rejected output traces (cap %d, io %v) are not analysed: 4 already were\n", cp, io)
+			if analysed >= 8 {
+				fmt.Printf("note: further rejected output traces (cap %d, io %v) are not analysed: 8 already were\n", cp, io)
 				continue
 			}
-			if err := findRejected("BrokerOutTrace", cfgText, idx, traces, 2, &rej); err != nil {
+			if err := findRejected("BrokerOutTrace", cfgText, idx, traces, 6, &rej); err != nil {
 				r.Inconclusive("bisecting rejected traces: %v", err)
 				return
 			}
@@ -451,10 +451,11 @@ func outCampaign(r *ev.Run, prop string) {
 				case p == prop && reported[aspect]:
 					// the same refusal again
 				case p == prop:
-					// reproduce on a fresh execution of the same schedule before reporting
-					reported[aspect] = true
+					// reproduce on fresh executions of the same schedule before reporting; a refusal that
+					// does not come back leaves the aspect open for the next refused trace of its kind
 					switch n := reproduces(ru, cfgText, p, aspect); {
 					case n >= 2:
+						reported[aspect] = true
 						r.Violation(aspect, detail)
 					case n == 1:
 						r.Inconclusive("rejected trace reproduced only once in eight re-executions (%s): %v\n  trace: %v (refused at %d)", aspect, ru.sched, traces[k], at)
